@@ -337,6 +337,9 @@ type layoutOpt struct {
 	valuesFirst    bool // values of a directory before its sub-directories where possible
 	entryOrderVals bool // out-of-line values of a directory in entry order (camera style) rather than shuffled
 	ifd1           bool // IFD0 has a successor directory (thumbnail IFD) after everything else, as camera files do
+	slotJunk       bool // the unused bytes of an embedded value shorter than 4 bytes are arbitrary (TIFF leaves them undefined)
+	isoPair        bool // ISOSpeedRatings as SHORT x 2 (count is "any" in Exif 2.3): the first value is the ISO speed
+	zeroDen        bool // MALFORMED: some denominators of RATIONAL / SRATIONAL values are zero
 }
 
 // buildTIFF lays the record out in a forward layout and returns the bytes.
@@ -376,6 +379,31 @@ func buildTIFF(c *Ctx, r lrec, big bool, lo layoutOpt) []byte {
 	if len(dg) > 0 {
 		d0 = append(d0, gEnt{id: 0x8825, typ: 4, count: 1, ifdTo: "gps"})
 	}
+	if lo.isoPair {
+		for i := range de {
+			if de[i].id == 0x8827 && de[i].typ == 3 && de[i].count == 1 {
+				de[i].count = 2
+				de[i].data = append(append([]byte{}, de[i].data...), e.u16(uint16(1+c.Rng.Intn(65535)))...)
+			}
+		}
+	}
+	if lo.zeroDen {
+		for _, l := range [][]gEnt{d0, de, dg} {
+			for i := range l {
+				if (l[i].typ == 5 || l[i].typ == 10) && len(l[i].data) >= 8 && c.Rng.Intn(2) == 0 {
+					d := append([]byte{}, l[i].data...)
+					n := len(d) / 8
+					k := c.Rng.Intn(n) // at least one zero, the others at random: mixed zero and non-zero denominators
+					for j := 0; j < n; j++ {
+						if j == k || c.Rng.Intn(3) == 0 {
+							copy(d[8*j+4:8*j+8], []byte{0, 0, 0, 0})
+						}
+					}
+					l[i].data = d
+				}
+			}
+		}
+	}
 	dirsByName := map[string][]gEnt{"ifd0": withForeign(d0), "exif": withForeign(de), "gps": withForeign(dg)}
 	// block scheduling: a directory, then (in random forward order) its out-of-line values and sub-directories
 	type patch struct {
@@ -414,6 +442,11 @@ func buildTIFF(c *Ctx, r lrec, big bool, lo layoutOpt) []byte {
 				mine = append(mine, block{dir: nm})
 			case len(en.data) <= 4:
 				v := append(append([]byte{}, en.data...), 0, 0, 0, 0)
+				if lo.slotJunk {
+					for j := len(en.data); j < 4; j++ {
+						v[j] = byte(1 + c.Rng.Intn(255))
+					}
+				}
 				out = append(out, v[:4]...)
 			default:
 				out = append(out, 0, 0, 0, 0)
